@@ -30,6 +30,7 @@ import Driver.PoolAccept
 import Driver.VerifyBatches
 import Driver.TarFS
 import Driver.ProtoSession
+import Driver.MountHandleAccept
 
 namespace Driver
 open Desync
@@ -622,6 +623,7 @@ def runLine (l : String) : String :=
     | "chunk.ops" => cmdChunkOps a
     | "hash" => cmdHash a
     | "ip.ops" => cmdIpOps a
+    | "mh.accept" => MountHandleAccept.run (parseRChunks (a.get "chunks")) (a.nat "len") (a.nat "nullid") (a.nat "nulllen") (parseBlobs (a.get "blobs")) (natList (a.get "fail")) (a.get "reqs") (a.get "events")
     | "http.retry" => cmdHttpRetry a
     | "chain.ops" => cmdChainOps a
     | "dedup.accept" => cmdDedupAccept a
